@@ -156,6 +156,24 @@ extern void (*cello_verif_yield)(int site);
 #define CELLO_VERIF_YIELD(S) do { } while (0)
 #endif
 
+#ifdef CELLO_VERIF
+#include <stddef.h>
+#include <stdint.h>
+#include <stdbool.h>
+/* read-only views of private container state, for invariant checking */
+void Cello_Verif_GC_Info(var gc, size_t* nslots, size_t* nitems,
+  size_t* mitems, uintptr_t* minptr, uintptr_t* maxptr, bool* running,
+  size_t* freenum);
+bool Cello_Verif_GC_Slot(var gc, size_t i, var* ptr, uint64_t* hash,
+  bool* root, bool* marked);
+void Cello_Verif_Table_Info(var table, size_t* nslots, size_t* nitems);
+bool Cello_Verif_Table_Slot(var table, size_t i, uint64_t* hash,
+  var* key, var* val);
+var Cello_Verif_Tree_Root(var tree, size_t* nitems);
+void Cello_Verif_Tree_Node(var tree, var node, var* left, var* right,
+  var* parent, bool* red, var* key, var* val);
+#endif
+
 #define is ==
 #define isnt !=
 #define not !
